@@ -1,10 +1,5 @@
 #!/bin/bash
-# tools/seeded_recheck.sh <seed-id> <property>...   applies /verif/seeded/<id>/patch.diff to /repo, runs the quick checks, restores /repo
+# tools/seeded_recheck.sh <seed-id> <property>...   runs the quick checks against a private copy of the repository with
+# /verif/seeded/<id>/patch.diff applied (tools/private_check.sh); /repo itself is not touched
 ID=$1; shift
-[ -z "$(git -C /repo status --porcelain)" ] || { echo "/repo not clean"; exit 2; }
-git -C /repo apply /verif/seeded/$ID/patch.diff || { echo "patch does not apply"; exit 2; }
-for p in "$@"; do
-  out=$(cd /verif && ./check $p 2>&1); rc=$?
-  echo "$ID $p exit=$rc $(echo "$out" | grep -o 'check: C[0-9]*|[^:]*' | head -3 | tr '\n' ' ')"
-done
-git -C /repo checkout -- .
+exec /verif/tools/private_check.sh /verif/seeded/$ID/patch.diff "$@"
